@@ -76,6 +76,17 @@ theorem getIdxI_neg_one {α : Type} (l : List α) :
       simp only [List.length_cons]; omega
     simp only [h1, if_true, h2, if_false, h3, List.getLast?_eq_getElem?]
 
+theorem getIdxI_len_pred {α : Type} (l : List α) :
+    getIdxI l (len l - 1) = match l.getLast? with | some x => .ok x | none => .error "ERR:Index" := by
+  cases l with
+  | nil => simp [getIdxI, len]
+  | cons y ys =>
+    have h : len (y :: ys) - 1 = ((ys.length : Nat) : Int) := by
+      unfold len; simp only [List.length_cons]; omega
+    rw [h, getIdxI_ofNat (y :: ys) ys.length ((y :: ys).getLast (by simp))]
+    · simp [List.getLast?_eq_some_getLast]
+    · simp [List.getLast_eq_getElem]
+
 theorem rangeI_eq (a : Nat) (n : Nat) (h : a ≤ n) :
     rangeI (a : Int) (n : Int) = (List.range' a (n - a)).map (fun k : Nat => (k : Int)) := by
   unfold rangeI
